@@ -5,7 +5,7 @@
          the naming loop of parse_parameters),
      pharmpy/model/external/nonmem/update.py                 (update_thetas, create_theta_record)
    mirroring the Python statement by statement on the concrete syntax trees of PV.C04.Cst.
-   Python floats are an engine: they are an abstract carrier [fV] with the operations the code uses
+   Python floats are an engine: they are an abstract carrier [V] with the operations the code uses
    ([float(text)], [str(x)], [format_number], comparisons); the check instantiates them with tables
    exported from CPython, the theorems quantify over them.  No proofs in this file. *)
 From Coq Require Import List NArith ZArith PArith Bool Arith.
@@ -13,21 +13,22 @@ From PV Require Import C04.Cst C04.Lcs.
 Import ListNotations.
 Local Open Scope nat_scope.
 
-Record fops := mkF {
-  fV : Type;                         (* finite Python floats *)
-  veqb : fV -> fV -> bool;           (* == *)
-  vltb : fV -> fV -> bool;           (* <  *)
-  vzero : fV;                        (* 0.0 *)
-  vmax : fV;                         (* 1000000.0  (MAX_UPPER_BOUND) *)
-  vmin : fV;                         (* -1000000.0 (MIN_LOWER_BOUND) *)
-  tokval : text -> option fV;        (* float(token.value); None = ValueError *)
-  vstr : fV -> text;                 (* str(x) *)
-  fmtnum : fV -> text;               (* str(int(x)) if int(x) == x else str(x) *)
-  fsqrt : fV -> fV;                  (* x ** 0.5 *)
-  fsq : fV -> fV                     (* x ** 2 *)
+Record fops (V : Type) := mkF {   (* V = finite Python floats *)
+  veqb : V -> V -> bool;             (* == *)
+  vltb : V -> V -> bool;             (* <  *)
+  vzero : V;                         (* 0.0 *)
+  vmax : V;                          (* 1000000.0  (MAX_UPPER_BOUND) *)
+  vmin : V;                          (* -1000000.0 (MIN_LOWER_BOUND) *)
+  tokval : text -> option V;         (* float(token.value); None = ValueError *)
+  vstr : V -> text;                  (* str(x) *)
+  fmtnum : V -> text;                (* str(int(x)) if int(x) == x else str(x) *)
+  fsqrt : V -> V;                    (* x ** 0.5 *)
+  fsq : V -> V                       (* x ** 2 *)
 }.
+Arguments veqb {V}. Arguments vltb {V}. Arguments vzero {V}. Arguments vmax {V}. Arguments vmin {V}.
+Arguments tokval {V}. Arguments vstr {V}. Arguments fmtnum {V}. Arguments fsqrt {V}. Arguments fsq {V}.
 
-Inductive err := ESyntax | EInternal.          (* ModelSyntaxError | any other exception *)
+Inductive err := ESyntax | EParse | EInternal.   (* ModelSyntaxError | lark refuses the text | any other exception *)
 Inductive res (A : Type) := Ok (a : A) | Err (e : err).
 Arguments Ok {A}. Arguments Err {A}.
 Definition bind {A B} (x : res A) (f : A -> res B) : res B :=
@@ -39,9 +40,16 @@ Fixpoint mapM {A B} (f : A -> res B) (l : list A) : res (list B) :=
   end.
 Definition of_opt {A} (x : option A) : res A := match x with Some a => Ok a | None => Err EInternal end.
 
+(* the spelled text of the init / low / up token of a theta *)
+Definition tok_text (which : rule) (ch : list node) : option text :=
+  match find which ch with
+  | Some n => match tokens n with Tok _ t :: _ => Some t | _ => None end
+  | None => None
+  end.
+
 Section Theta.
-Variable F : fops.
-Notation V := (fV F).
+Variable V : Type.
+Variable F : fops V.
 
 Inductive ext := MInf | Fin (v : V) | PInf.
 Record param := mkP { p_init : V; p_lower : ext; p_upper : ext; p_fix : bool }.
@@ -167,11 +175,11 @@ Definition theta_fixs (ch : list node) : res (list bool) :=
                         end
                  end
             else Ok true
-        end) (fun fix =>
-  if negb fix && (match uptok with BNone => true | _ => false end) && btok_is_val lowtok init
+        end) (fun fx =>
+  if negb fx && (match uptok with BNone => true | _ => false end) && btok_is_val lowtok init
   then Err ESyntax
-  else if negb fix && veqb F init (vzero F) then Err ESyntax
-  else bind (multiple ch) (fun n => Ok (rep n fix)))))).
+  else if negb fx && veqb F init (vzero F) then Err ESyntax
+  else bind (multiple ch) (fun n => Ok (rep n fx)))))).
 
 (* the direct children of the root that are theta subtrees *)
 Definition thetas_of (root : node) : list node := subtrees r_theta (children root).
@@ -195,13 +203,15 @@ Fixpoint names_walk (l : list node) (intheta : bool) (n : Z) (acc : list (option
 Definition comment_names (root : node) : res (list (option text)) := names_walk (walk root) false 0%Z [].
 
 (* one record as parse_thetas consumes it: bounds, then inits, then fixs, then comment_names *)
-Definition record_sem (root : node) : res (list (option text * (V * (ext * ext) * bool))) :=
+Definition record_values (root : node) : res (list (V * (ext * ext) * bool)) :=
   let ths := map children (thetas_of root) in
   bind (mapM theta_bounds ths) (fun bs =>
   bind (mapM theta_inits ths) (fun is_ =>
   bind (mapM theta_fixs ths) (fun fs =>
-  bind (comment_names root) (fun ns =>
-  Ok (combine ns (combine (combine (concat is_) (concat bs)) (concat fs))))))).
+  Ok (combine (combine (concat is_) (concat bs)) (concat fs))))).
+Definition record_sem (root : node) : res (list (option text * (V * (ext * ext) * bool))) :=
+  bind (record_values root) (fun vs =>
+  bind (comment_names root) (fun ns => Ok (combine ns vs))).
 
 (* _fix_thetas_with_same_bounds *)
 Definition autofix (x : V * (ext * ext) * bool) : param :=
@@ -214,7 +224,7 @@ Definition autofix (x : V * (ext * ext) * bool) : param :=
 
 (* the parameters of one record without names: what the record means *)
 Definition sem (root : node) : res (list param) :=
-  bind (record_sem root) (fun l => Ok (map (fun x => autofix (snd x)) l)).
+  bind (record_values root) (fun l => Ok (map autofix l)).
 
 (* ThetaRecord.__len__ *)
 Definition record_len (root : node) : res N :=
@@ -306,7 +316,30 @@ Definition ext_ltb (a b : ext) : bool :=       (* Python float comparison a < b 
   | PInf, _ => false
   end.
 
-(* _update_theta on the children of one theta; returns the new children and n *)
+(* _update_theta on the children of one theta, in the order of the Python statements *)
+Definition new_init_node (init : node) (p : param) (cur : V) : node :=
+  if veqb F cur (p_init p) then init
+  else Tree (rule_of init) (replace_first (Tok r_NUMERIC (vstr F (p_init p))) (children init)).
+
+Definition step_fix (ch1 : list node) (p : param) : list node :=
+  if Bool.eqb (has r_FIX ch1) (p_fix p) then ch1
+  else if p_fix p then ch1 ++ [ws_tok; fix_tok] else rtas r_FIX ch1.
+
+Definition p_need_up (p : param) : bool := ext_ltb (p_upper p) (Fin (vmax F)).      (* param.upper < 1000000 *)
+Definition p_need_low (p : param) : bool := ext_ltb (Fin (vmin F)) (p_lower p) || p_need_up p.
+
+Definition step_up (ch2 : list node) (p : param) : list node :=     (* "if up != param.upper": always true *)
+  let have_up := has r_up ch2 in
+  if negb have_up && p_need_up p then add_upper_bound ch2 (p_upper p)
+  else if have_up && negb (p_need_up p) then remove_upper_bound ch2
+  else replace_bound r_up ch2 (p_upper p).
+
+Definition step_low (ch3 : list node) (p : param) (n : N) (have_low : bool) : list node :=
+  if negb have_low && p_need_low p then add_parentheses (add_lower_bound ch3 (p_lower p))
+  else if have_low && negb (p_need_low p)
+       then let c := remove_lower_bound ch3 in if N.eqb n 1 then remove_parentheses c else c
+       else replace_bound r_low ch3 (p_lower p).
+
 Definition update_theta (ch : list node) (p : param) : res (list node * N) :=
   match subtree r_init ch with
   | None => Err EInternal
@@ -315,28 +348,10 @@ Definition update_theta (ch : list node) (p : param) : res (list node * N) :=
       | None => Err EInternal
       | Some v =>
           bind (of_opt (tokval F v)) (fun cur =>
-          let init' := if veqb F cur (p_init p) then init
-                       else Tree (rule_of init)
-                                 (replace_first (Tok r_NUMERIC (vstr F (p_init p))) (children init)) in
-          let ch1 := replace_first init' ch in
-          let fix := has r_FIX ch1 in
-          let ch2 := if Bool.eqb fix (p_fix p) then ch1
-                     else if p_fix p then ch1 ++ [ws_tok; fix_tok] else rtas r_FIX ch1 in
-          let have_up := has r_up ch2 in
-          let have_low := has r_low ch2 in
+          let ch1 := replace_first (new_init_node init p cur) ch in
+          let ch2 := step_fix ch1 p in
           bind (multiple ch2) (fun n =>
-          let need_up := ext_ltb (p_upper p) (Fin (vmax F)) in
-          let ch3 := if negb have_up && need_up then add_upper_bound ch2 (p_upper p)
-                     else if have_up && negb need_up then remove_upper_bound ch2
-                     else replace_bound r_up ch2 (p_upper p) in
-          let need_low := ext_ltb (Fin (vmin F)) (p_lower p) || need_up in
-          let ch4 := if negb have_low && need_low
-                     then add_parentheses (add_lower_bound ch3 (p_lower p))
-                     else if have_low && negb need_low
-                          then let c := remove_lower_bound ch3 in
-                               if N.eqb n 1 then remove_parentheses c else c
-                          else replace_bound r_low ch3 (p_lower p) in
-          Ok (ch4, n)))
+          Ok (step_low (step_up ch2 p) p n (has r_low ch2), n)))
       end
   end.
 
@@ -405,28 +420,30 @@ Definition nparam := (text * param)%type.
 Definition nparam_eqb (a b : nparam) : bool := text_eqb (fst a) (fst b) && param_eqb (snd a) (snd b).
 Definition name_eqb (a b : nparam) : bool := text_eqb (fst a) (fst b).
 
-Inductive recout := Kept (root : node) | Created (root : node).
-Definition recout_root (r : recout) : node := match r with Kept x | Created x => x end.
+(* what update_thetas decides to do, in order; [run_action] then does it *)
+Inductive action :=
+| AKeep (root : node)                                  (* record appended unchanged *)
+| ACreate (name : text) (p : param)                    (* create_theta_record(param) *)
+| AUpdate (root : node) (rem : list nat) (chg : list param).   (* record.remove(rem).update(chg) *)
 
 (* the loop of update_thetas.  State: records still to visit (recs = theta_records[record_index:]),
-   i, cur_to_change (in order), cur_to_remove (in order); output accumulated in order. *)
+   i, cur_to_change (in order), cur_to_remove (in order). *)
 Fixpoint ut_loop (kept_names : list text) (d : list (op * nparam)) (recs : list node)
-         (i : N) (chg : list param) (rem : list nat) : res (list recout) :=
+         (i : N) (chg : list param) (rem : list nat) : res (list action) :=
   match d with
   | [] => Ok []
   | (o, np) :: tl =>
       let inkept := mem_text (fst np) kept_names in
-      (* the body of the three branches: (emitted records, recs, i, chg, rem) *)
       bind (match o with
             | Add => if inkept then Ok ([], recs, (i + 1)%N, chg ++ [snd np], rem)
-                     else Ok ([Created (create_theta_root (fst np) (snd np))], recs, i, chg, rem)
+                     else Ok ([ACreate (fst np) (snd np)], recs, i, chg, rem)
             | Del => if inkept then Ok ([], recs, i, chg, rem)
                      else Ok ([], recs, (i + 1)%N, chg, rem ++ [N.to_nat i])
             | Keep => match recs with
                       | [] => Err EInternal                 (* IndexError *)
                       | r :: recs' =>
                           bind (record_len r) (fun n =>
-                          if N.eqb n 1 then Ok ([Kept r], recs', i, chg, rem)
+                          if N.eqb n 1 then Ok ([AKeep r], recs', i, chg, rem)
                           else Ok ([], recs, (i + 1)%N, chg ++ [snd np], rem))
                       end
             end) (fun st =>
@@ -436,9 +453,8 @@ Fixpoint ut_loop (kept_names : list text) (d : list (op * nparam)) (recs : list 
             | r :: recs2 =>
                 bind (record_len r) (fun n =>
                 if N.eqb n i1
-                then bind (if negb (Nat.eqb (length rem1) (N.to_nat n))
-                           then bind (theta_update (theta_remove r rem1) chg1) (fun r' => Ok [Kept r'])
-                           else Ok []) (fun o2 => Ok (o2, recs2, 0%N, [], []))
+                then Ok ((if negb (Nat.eqb (length rem1) (N.to_nat n)) then [AUpdate r rem1 chg1] else []),
+                         recs2, 0%N, [], [])
                 else Ok ([], recs1, i1, chg1, rem1))
             end) (fun st2 =>
       let '(out2, recs3, i3, chg3, rem3) := st2 in
@@ -448,13 +464,521 @@ Fixpoint ut_loop (kept_names : list text) (d : list (op * nparam)) (recs : list 
 Definition names_of (l : list nparam) : list text := map fst l.
 Definition inter_names (a b : list text) : list text := filter (fun x => mem_text x b) a.
 
-Definition update_thetas (recs : list node) (old new : list nparam) : res (list recout) :=
+Definition ut_plan (recs : list node) (old new : list nparam) : res (list action) :=
   let kept := inter_names (names_of old) (names_of new) in
   let d := reorder_diff name_eqb (fun p => mem_text (fst p) kept) (diff nparam_eqb old new) in
   ut_loop kept d recs 0%N [] [].
 
+Definition run_action (a : action) : res node :=
+  match a with
+  | AKeep r => Ok r
+  | ACreate nm p => Ok (create_theta_root nm p)
+  | AUpdate r rem chg => theta_update (theta_remove r rem) chg
+  end.
+
+Definition update_thetas (recs : list node) (old new : list nparam) : res (list node) :=
+  bind (ut_plan recs old new) (mapM run_action).
+
 End Theta.
 
-Arguments Fin {F}. Arguments MInf {F}. Arguments PInf {F}.
-Arguments mkP {F}. Arguments p_init {F}. Arguments p_lower {F}. Arguments p_upper {F}. Arguments p_fix {F}.
+Arguments Fin {V}. Arguments MInf {V}. Arguments PInf {V}.
+Arguments mkP {V}. Arguments p_init {V}. Arguments p_lower {V}. Arguments p_upper {V}. Arguments p_fix {V}.
+Arguments BNone {V}. Arguments BInf {V}. Arguments BVal {V}.
+Arguments AKeep {V}. Arguments ACreate {V}. Arguments AUpdate {V}.
 
+
+(* ================================================================================================
+   What re-reading the regenerated text yields, as far as pharmpy's own logic goes: the lexer
+   classifies a bound written as "-inf"/"inf"/"-1000000"/"1000000" as NEG_INF/POS_INF (relex);
+   lark + with_ignored_tokens never leave white space or comments at the edges of a subtree (hoist);
+   the theta grammar and the observed lexer quirk decide acceptance (reparse_ok).
+   ================================================================================================ *)
+Section Reread.
+Variable V : Type.
+Variable F : fops V.
+
+Definition lower_ascii (c : N) : N := if ((65 <=? c) && (c <=? 90))%N then (c + 32)%N else c.
+Definition text_ieqb (a b : text) : bool := text_eqb (map lower_ascii a) (map lower_ascii b).
+Definition neg_inf_spelling (t : text) : bool :=
+  text_ieqb t [45; 105; 110; 102]%N || text_eqb t [45; 49; 48; 48; 48; 48; 48; 48]%N.
+Definition pos_inf_spelling (t : text) : bool :=
+  text_ieqb t [105; 110; 102]%N || text_eqb t [49; 48; 48; 48; 48; 48; 48]%N.
+
+Definition relex_bound (n : node) : node :=
+  match n with
+  | Tree r [Tok r' t] =>
+      if Pos.eqb r r_low && Pos.eqb r' r_NUMERIC && neg_inf_spelling t then Tree r [Tok r_NEG_INF t]
+      else if Pos.eqb r r_up && Pos.eqb r' r_NUMERIC && pos_inf_spelling t then Tree r [Tok r_POS_INF t]
+      else n
+  | _ => n
+  end.
+Definition relex_theta (n : node) : node :=
+  match n with
+  | Tree r ch => if Pos.eqb r r_theta then Tree r (map relex_bound ch) else n
+  | _ => n
+  end.
+Definition relex (root : node) : node :=
+  match root with Tree r ch => Tree r (map relex_theta ch) | _ => root end.
+
+Definition is_trivia (c : node) : bool :=
+  has_rule r_WS c || has_rule r_COMMENT c || has_rule r_NEWLINE c.
+
+(* leading / trailing trivia of a theta node belong to the root *)
+Fixpoint span_trivia (l : list node) : list node * list node :=
+  match l with
+  | c :: tl => if is_trivia c then let '(a, b) := span_trivia tl in (c :: a, b) else ([], l)
+  | [] => ([], [])
+  end.
+Definition hoist_theta (n : node) : list node :=
+  match n with
+  | Tree r ch =>
+      if Pos.eqb r r_theta
+      then let '(pre, rest) := span_trivia ch in
+           let '(post_r, core_r) := span_trivia (rev rest) in
+           pre ++ [Tree r (rev core_r)] ++ rev post_r
+      else [n]
+  | _ => [n]
+  end.
+Definition hoist (root : node) : node :=
+  match root with Tree r ch => Tree r (flat_map hoist_theta ch) | _ => root end.
+
+(* ---- the theta grammar on the labelled skeleton (children without trivia, as rules) ---------- *)
+Definition skeleton (ch : list node) : list rule := map rule_of (filter (fun c => negb (is_trivia c)) ch).
+
+Fixpoint strip_fix (l : list rule) : list rule :=
+  match l with r :: tl => if Pos.eqb r r_FIX then strip_fix tl else l | [] => [] end.
+Fixpoint rules_eqb (a b : list rule) : bool :=
+  match a, b with
+  | [], [] => true
+  | x :: a', y :: b' => Pos.eqb x y && rules_eqb a' b'
+  | _, _ => false
+  end.
+Definition gram_close (l : list rule) : bool :=       (* _rpar _after? *)
+  match l with
+  | r :: a => Pos.eqb r r_RPAR && (rules_eqb a [] || rules_eqb a [r_n] || rules_eqb a [r_FIX])
+  | [] => false
+  end.
+Definition after_init (l : list rule) : bool :=     (* after "init": _fixes? then the rest of _rest *)
+  let t := strip_fix l in
+  match t with
+  | r :: t' =>
+      if Pos.eqb r r_COMMA
+      then match strip_fix t' with
+           | r2 :: t2 => if Pos.eqb r2 r_up then gram_close (strip_fix t2) else gram_close t'
+           | [] => false
+           end
+      else if Pos.eqb r r_up then gram_close (strip_fix t') else gram_close t
+  | [] => false
+  end.
+Definition theta_gram (sk : list rule) : bool :=
+  match sk with
+  | r :: tl =>
+      if Pos.eqb r r_init then rules_eqb tl [] || rules_eqb tl [r_FIX]
+      else if Pos.eqb r r_LPAR
+      then match strip_fix tl with
+           | r1 :: t1 =>
+               if Pos.eqb r1 r_init then gram_close (strip_fix t1)
+               else if Pos.eqb r1 r_low
+               then let t2 := strip_fix t1 in
+                    match t2 with
+                    | c1 :: c2 :: t3 =>
+                        if Pos.eqb c1 r_COMMA && Pos.eqb c2 r_COMMA
+                        then match strip_fix t3 with
+                             | u :: t4 => Pos.eqb u r_up && gram_close (strip_fix t4)
+                             | [] => false
+                             end
+                        else if Pos.eqb c1 r_COMMA
+                             then match strip_fix (c2 :: t3) with
+                                  | i :: t4 => Pos.eqb i r_init && after_init t4
+                                  | [] => false
+                                  end
+                             else Pos.eqb c1 r_init && after_init (c2 :: t3)
+                    | _ => false
+                    end
+               else false
+           | [] => false
+           end
+      else false
+  | [] => false
+  end.
+
+(* ---- lexer adjacency: the flattened leaves with their parent rule --------------------------- *)
+Fixpoint leaves_p (parent : rule) (n : node) : list (rule * rule * text) :=
+  match n with
+  | Tok r v => [(parent, r, v)]
+  | Tree r ch => flat_map (leaves_p r) ch
+  end.
+Definition starts_value_char (t : text) : bool :=   (* the next character continues VALUE: [^\s=;] *)
+  match t with
+  | c :: _ => negb (is_space c || (c =? 61)%N || (c =? 59)%N)
+  | [] => false
+  end.
+Definition is_numeric_rule (r : rule) : bool :=
+  Pos.eqb r r_NUMERIC || Pos.eqb r r_INT || Pos.eqb r r_NEG_INF || Pos.eqb r r_POS_INF.
+Definition starts_numeric_char (t : text) : bool :=
+  match t with c :: _ => is_digit c || (c =? 46)%N | [] => false end.
+
+(* state while scanning the leaves of a record:  in_two = inside a theta whose last significant
+   token so far is the NUMERIC of an init preceded by a low (the state in which lark's contextual
+   lexer also accepts VALUE, so that ")x2" / ")FIX" / ")3" is lexed as one VALUE token) *)
+Fixpoint glue_scan (l : list (rule * rule * text)) (seen_low : bool) (last_init : bool) : bool :=
+  match l with
+  | [] => true
+  | (p, r, v) :: tl =>
+      let next_text := match tl with (_, _, v') :: _ => v' | [] => [] end in
+      if Pos.eqb r r_LPAR then glue_scan tl false false
+      else if Pos.eqb r r_RPAR
+           then (if seen_low && last_init then negb (starts_value_char next_text) else true)
+                && glue_scan tl false false
+      else if is_numeric_rule r
+           then negb (starts_numeric_char next_text)
+                && glue_scan tl (seen_low || Pos.eqb p r_low) (Pos.eqb p r_init)
+      else if Pos.eqb r r_WS || Pos.eqb r r_COMMENT || Pos.eqb r r_NEWLINE
+           then glue_scan tl seen_low last_init
+      else glue_scan tl seen_low false
+  end.
+
+Definition reparse_ok (root : node) : bool :=
+  forallb (fun t => theta_gram (skeleton (children t))) (thetas_of root)
+  && glue_scan (leaves_p r_root root) false false.
+
+(* the theta parameters (with names) pharmpy reads back from the text of these record trees *)
+Definition reread (all_names : list text) (roots : list node) : res (list (text * param V)) :=
+  if forallb reparse_ok roots
+  then parse_thetas V F all_names (map (fun r => hoist (relex r)) roots)
+  else Err EParse.
+
+End Reread.
+
+(* ================================================================================================
+   Guards: executable conditions on the INPUT of an update (record tree + new parameters) under
+   which the property theorems are stated.  Conjuncts that exist because the code fails have a
+   _refuted theorem in Refuted.v; the others describe parameters NONMEM / pharmpy's reader cannot
+   represent.
+   ================================================================================================ *)
+Section Guards.
+Variable V : Type.
+Variable F : fops V.
+
+(* ---- plain layout of one theta: the children without white space are exactly
+        init [FIX]   |   ( [low ,] init [, up] ) [FIX | x n]                                       *)
+Inductive close := CNone | CFix (t : text) | CN (tx ti : text) | CNFix (tx ti tf : text).
+Inductive shape :=
+| SBare (ti : text) (fx : option text)
+| SPar (tl : text) (lo : option (rule * text * text)) (ti : text) (up : option (text * rule * text))
+       (tr : text) (cl : close).
+
+Definition n_node (tx ti : text) : node := Tree r_n [Tok r_X tx; Tok r_INT ti].
+Definition enc_close (cl : close) : list node :=
+  match cl with
+  | CNone => []
+  | CFix t => [Tok r_FIX t]
+  | CN tx ti => [n_node tx ti]
+  | CNFix tx ti tf => [n_node tx ti; Tok r_FIX tf]
+  end.
+Definition enc_lo (lo : option (rule * text * text)) : list node :=
+  match lo with Some (r, t, tc) => [Tree r_low [Tok r t]; Tok r_COMMA tc] | None => [] end.
+Definition enc_up (up : option (text * rule * text)) : list node :=
+  match up with Some (tc, r, t) => [Tok r_COMMA tc; Tree r_up [Tok r t]] | None => [] end.
+Definition encode (s : shape) : list node :=
+  match s with
+  | SBare ti fx => Tree r_init [Tok r_NUMERIC ti] :: match fx with Some t => [Tok r_FIX t] | None => [] end
+  | SPar tl lo ti up tr cl =>
+      Tok r_LPAR tl :: enc_lo lo ++ Tree r_init [Tok r_NUMERIC ti] :: enc_up up ++ Tok r_RPAR tr :: enc_close cl
+  end.
+
+Definition take_tok (r : rule) (l : list node) : option (text * list node) :=
+  match l with
+  | Tok r' t :: tl => if Pos.eqb r' r then Some (t, tl) else None
+  | _ => None
+  end.
+Definition take_lab (lab : rule) (l : list node) : option (rule * text * list node) :=
+  match l with
+  | Tree r' [Tok rn t] :: tl => if Pos.eqb r' lab then Some (rn, t, tl) else None
+  | _ => None
+  end.
+Definition dec_n (c : node) : option (text * text) :=
+  match c with
+  | Tree r [Tok r1 tx; Tok r2 ti] =>
+      if Pos.eqb r r_n && Pos.eqb r1 r_X && Pos.eqb r2 r_INT then Some (tx, ti) else None
+  | _ => None
+  end.
+Definition dec_close (l : list node) : option close :=
+  match l with
+  | [] => Some CNone
+  | [c] => match take_tok r_FIX [c] with
+           | Some (t, _) => Some (CFix t)
+           | None => match dec_n c with Some (tx, ti) => Some (CN tx ti) | None => None end
+           end
+  | [c; d] => match dec_n c, take_tok r_FIX [d] with
+              | Some (tx, ti), Some (tf, _) => Some (CNFix tx ti tf)
+              | _, _ => None
+              end
+  | _ => None
+  end.
+Definition dec_lo (l : list node) : option (option (rule * text * text) * list node) :=
+  match take_lab r_low l with
+  | Some (rl, tlow, l2) => match take_tok r_COMMA l2 with
+                           | Some (tc, l3) => Some (Some (rl, tlow, tc), l3)
+                           | None => None
+                           end
+  | None => Some (None, l)
+  end.
+Definition dec_up (l : list node) : option (option (text * rule * text) * list node) :=
+  match take_tok r_COMMA l with
+  | Some (tc, l2) => match take_lab r_up l2 with
+                     | Some (ru, tu, l3) => Some (Some (tc, ru, tu), l3)
+                     | None => None
+                     end
+  | None => Some (None, l)
+  end.
+Definition decode (l : list node) : option shape :=
+  match take_lab r_init l with
+  | Some (rn, ti, tl) =>
+      if Pos.eqb rn r_NUMERIC
+      then match tl with
+           | [] => Some (SBare ti None)
+           | _ => match take_tok r_FIX tl with
+                  | Some (t, []) => Some (SBare ti (Some t))
+                  | _ => None
+                  end
+           end
+      else None
+  | None =>
+      match take_tok r_LPAR l with
+      | None => None
+      | Some (tlp, l1) =>
+          match dec_lo l1 with
+          | None => None
+          | Some (lo, l3) =>
+              match take_lab r_init l3 with
+              | Some (rn, ti, l4) =>
+                  if Pos.eqb rn r_NUMERIC
+                  then match dec_up l4 with
+                       | None => None
+                       | Some (up, l6) =>
+                           match take_tok r_RPAR l6 with
+                           | Some (tr, l7) => match dec_close l7 with
+                                              | Some cl => Some (SPar tlp lo ti up tr cl)
+                                              | None => None
+                                              end
+                           | None => None
+                           end
+                       end
+                  else None
+              | None => None
+              end
+          end
+      end
+  end.
+
+Definition isSome {A} (x : option A) : bool := match x with Some _ => true | None => false end.
+Definition bound_tok_ok (inf_rule : rule) (r : rule) (t : text) : bool :=
+  Pos.eqb r r_NUMERIC || Pos.eqb r inf_rule.        (* update never reads the old bound values *)
+Definition close_n (cl : close) : option N :=
+  match cl with
+  | CNone | CFix _ => Some 1%N
+  | CN _ ti | CNFix _ ti _ => int_of_text ti
+  end.
+Definition close_ok (cl : close) : bool :=
+  match cl with
+  | CNone | CFix _ => true
+  | CN _ ti => match int_of_text ti with Some n => (2 <=? n)%N | None => false end
+  | CNFix _ _ _ => false
+  end.
+Definition shape_ok (s : shape) : bool :=
+  match s with
+  | SBare ti _ => isSome (tokval F ti)
+  | SPar _ lo ti up _ cl =>
+      isSome (tokval F ti)
+      && match lo with Some (r, t, _) => bound_tok_ok r_NEG_INF r t | None => true end
+      && match up with Some (_, r, t) => bound_tok_ok r_POS_INF r t && isSome lo | None => true end
+      && close_ok cl
+  end.
+
+Definition nt (ch : list node) : list node := filter (fun c => negb (is_trivia c)) ch.
+
+Definition plain_theta (ch : list node) : bool :=
+  forallb (fun c => negb (has_rule r_COMMENT c)) ch
+  && match decode (nt ch) with Some s => shape_ok s | None => false end.
+
+(* ---- representable parameters ---------------------------------------------------------------- *)
+Definition g_repr (p : param V) : bool :=
+  negb (veqb F (p_init p) (vmax F)) && negb (veqb F (p_init p) (vmin F))
+  && match p_lower p with MInf => true | Fin l => vltb F (vmin F) l | PInf => false end
+  && match p_upper p with PInf => true | Fin u => vltb F u (vmax F) | MInf => false end
+  && (p_fix p || negb (veqb F (p_init p) (vzero F)))
+  && (p_fix p || negb (match p_lower p, p_upper p with
+                       | Fin l, PInf => veqb F l (p_init p)
+                       | Fin l, Fin u => veqb F l u && veqb F u (p_init p)
+                       | _, _ => false
+                       end)).
+
+(* ---- one theta with its group of parameters -------------------------------------------------- *)
+Definition need_up (p : param V) : bool := p_need_up V F p.
+Definition need_low (p : param V) : bool := p_need_low V F p.
+
+(* the closing parenthesis - or, for a theta without parentheses, the init after which update would put
+   one - is followed by white space inside the theta (or ends it) *)
+Fixpoint closer_spaced (closer : rule) (ch : list node) : bool :=
+  match ch with
+  | [] => true
+  | c :: tl => if has_rule closer c
+               then match tl with [] => true | d :: _ => is_trivia d end
+               else closer_spaced closer tl
+  end.
+Definition rpar_spaced (ch : list node) : bool :=
+  closer_spaced (if has r_LPAR ch then r_RPAR else r_init) ch.
+
+Definition g_xn_uniform (grp : list (param V)) : bool :=
+  match grp with [] => false | p :: tl => forallb (param_eqb V F p) tl end.
+Definition g_xn_nofix (ch : list node) (n : N) (p : param V) : bool :=
+  N.eqb n 1 || negb (p_fix p) || has r_FIX ch.
+Definition g_spaced (ch : list node) (next_spaced : bool) (p : param V) : bool :=
+  need_up p || negb (need_low p) || (rpar_spaced ch && next_spaced).
+
+Definition guard_theta (ch : list node) (n : N) (grp : list (param V)) (next_spaced : bool) : bool :=
+  match grp with
+  | [] => false
+  | p :: _ =>
+      plain_theta ch && Nat.eqb (length grp) (N.to_nat n) && g_xn_uniform grp
+      && g_xn_nofix ch n p && g_spaced ch next_spaced p && g_repr p
+  end.
+
+Definition starts_spaced (l : list node) : bool :=
+  match l with [] => true | d :: _ => is_trivia d end.
+
+Fixpoint guard_children (ch : list node) (ps : list (param V)) : bool :=
+  match ch with
+  | [] => match ps with [] => true | _ => false end
+  | c :: tl =>
+      if is_theta_tree c
+      then match multiple (children c) with
+           | Ok n => guard_theta (children c) n (firstn (N.to_nat n) ps) (starts_spaced tl)
+                     && guard_children tl (skipn (N.to_nat n) ps)
+           | Err _ => false
+           end
+      else guard_children tl ps
+  end.
+Definition guard_record (root : node) (ps : list (param V)) : bool := guard_children (children root) ps.
+
+(* which conjunct fails (for classification): 1 plain, 2 xn_uniform, 3 xn_nofix, 4 spaced, 5 repr, 6 count *)
+Fixpoint guard_fail_children (ch : list node) (ps : list (param V)) : list nat :=
+  match ch with
+  | [] => match ps with [] => [] | _ => [6] end
+  | c :: tl =>
+      if is_theta_tree c
+      then match multiple (children c) with
+           | Ok n =>
+               let grp := firstn (N.to_nat n) ps in
+               let k := children c in
+               (if plain_theta k then [] else [1])
+               ++ (if Nat.eqb (length grp) (N.to_nat n) then [] else [6])
+               ++ (if g_xn_uniform grp then [] else [2])
+               ++ match grp with
+                  | p :: _ => (if g_xn_nofix k n p then [] else [3])
+                              ++ (if g_spaced k (starts_spaced tl) p then [] else [4])
+                              ++ (if forallb g_repr grp then [] else [5])
+                  | [] => []
+                  end
+               ++ guard_fail_children tl (skipn (N.to_nat n) ps)
+           | Err _ => [6]
+           end
+      else guard_fail_children tl ps
+  end.
+
+(* ---- spelling: a bound token that stays is already spelled the way format_number spells it ----- *)
+Definition canon_bound (which : rule) (ch : list node) (p : param V) : bool :=
+  match find which ch with
+  | None => true
+  | Some (Tree _ [Tok r t]) =>
+      let v := if Pos.eqb r r_NUMERIC then tokval F t else None in
+      let finite := match v with
+                    | Some x => negb (veqb F x (if Pos.eqb which r_low then vmin F else vmax F))
+                    | None => false
+                    end in
+      match v with
+      | Some x => if finite then text_eqb t (fmtnum F x)
+                  else (* an infinite bound: dropped, or (a lower next to a finite upper) respelled "-inf" *)
+                       negb (Pos.eqb which r_low && need_up p) || text_eqb t [45; 105; 110; 102]%N
+      | None => negb (Pos.eqb which r_low && need_up p) || text_eqb t [45; 105; 110; 102]%N
+      end
+  | Some _ => false
+  end.
+Definition canon_bounds (ch : list node) (p : param V) : bool :=
+  canon_bound r_low ch p && canon_bound r_up ch p.
+Fixpoint canon_children (ch : list node) (ps : list (param V)) : bool :=
+  match ch with
+  | [] => true
+  | c :: tl =>
+      if is_theta_tree c
+      then match multiple (children c), ps with
+           | Ok n, p :: _ => canon_bounds (children c) p && canon_children tl (skipn (N.to_nat n) ps)
+           | _, _ => true
+           end
+      else canon_children tl ps
+  end.
+
+(* ---- update_thetas level --------------------------------------------------------------------- *)
+Definition all_single (root : node) : bool :=
+  forallb (fun t => match multiple (children t) with Ok n => N.eqb n 1 | Err _ => false end)
+          (thetas_of root).
+
+(* no COMMENT between a removed theta and the next theta (or the end) *)
+Fixpoint no_comment_until_theta (l : list node) : bool :=
+  match l with
+  | [] => true
+  | c :: tl => if has_rule r_theta c then true
+               else negb (has_rule r_COMMENT c) && no_comment_until_theta tl
+  end.
+Fixpoint removed_unnamed (ch : list node) (i : nat) (inds : list nat) : bool :=
+  match ch with
+  | [] => true
+  | c :: tl =>
+      if has_rule r_theta c
+      then (if memn' i inds
+            then forallb (fun x => negb (has_rule r_COMMENT x)) (walk c) && no_comment_until_theta tl
+            else true)
+           && removed_unnamed tl (S i) inds
+      else removed_unnamed tl i inds
+  end.
+
+Fixpoint remove_idx {A} (l : list A) (i : nat) (inds : list nat) : list A :=
+  match l with
+  | [] => []
+  | x :: tl => (if memn' i inds then [] else [x]) ++ remove_idx tl (S i) inds
+  end.
+
+Definition action_guard_fail (a : action V) : list nat :=
+  match a with
+  | AKeep _ => []
+  | ACreate nm p => if g_repr p then [] else [5]
+  | AUpdate r rem chg =>
+      (match rem with [] => [] | _ => (if all_single r then [] else [7])
+                                     ++ (if removed_unnamed (children r) 0 rem then [] else [8]) end)
+      ++ guard_fail_children (children (theta_remove r rem)) chg
+  end.
+
+(* the comment names the regenerated records carry if every comment stays with its theta *)
+Definition action_cnames (a : action V) : res (list (option text)) :=
+  match a with
+  | AKeep r => comment_names r
+  | ACreate nm _ => Ok [Some nm]
+  | AUpdate r rem _ => bind (comment_names r) (fun l => Ok (remove_idx l 0 rem))
+  end.
+Definition g_names (all_names : list text) (acts : list (action V)) (new : list (text * param V)) : bool :=
+  match mapM action_cnames acts with
+  | Ok l => let cn := concat l in
+            Nat.eqb (length cn) (length new)
+            && forallb (fun ab => text_eqb (fst (fst ab)) (fst (snd ab)))
+                 (combine (name_thetas V 1%N all_names (combine cn (map snd new))) new)
+  | Err _ => false
+  end.
+
+Definition action_respell_free (a : action V) : bool :=
+  match a with
+  | AUpdate r rem chg => canon_children (children (theta_remove r rem)) chg
+  | _ => true
+  end.
+
+End Guards.
